@@ -153,6 +153,9 @@ pub struct Node {
     async_tx: UnboundedSender<AsyncJob>,
     pub async_inflight: Arc<std::sync::atomic::AtomicUsize>,
     panics_logged: usize,
+    /// dial failures reported by the node's event loop / number seen when the last `dialdead` was issued
+    dialfails: usize,
+    dialfails_mark: usize,
     t0: Instant,
 }
 
@@ -280,6 +283,8 @@ impl Node {
             async_tx,
             async_inflight: inflight,
             panics_logged: 0,
+            dialfails: 0,
+            dialfails_mark: 0,
             t0,
         }
     }
@@ -290,9 +295,13 @@ pub struct Net {
     pub nodes: Vec<Node>,
     names: HashMap<PeerId, String>,
     proxy: Link,
+    /// link in front of X, used when Y dials X
+    rproxy: Link,
     pub max_late_ms: u64,
     t0: Instant,
     pub notes: Vec<String>,
+    tarpit_port: u16,
+    _tarpit: tokio::task::JoinHandle<()>,
 }
 
 fn idx_of(name: &str) -> usize {
@@ -311,10 +320,10 @@ impl Net {
         if cfg.bystander {
             nodes.push(Node::new("Z", 2, &cfg, t0).await);
         }
-        let proxy = if cfg.transport == "quic" {
-            Link::Udp(UdpProxy::start(nodes[1].listen).await)
+        let (proxy, rproxy) = if cfg.transport == "quic" {
+            (Link::Udp(UdpProxy::start(nodes[1].listen).await), Link::Udp(UdpProxy::start(nodes[0].listen).await))
         } else {
-            Link::Tcp(Proxy::start(nodes[1].listen).await)
+            (Link::Tcp(Proxy::start(nodes[1].listen).await), Link::Tcp(Proxy::start(nodes[0].listen).await))
         };
         let mut names = HashMap::new();
         for n in &nodes {
@@ -332,7 +341,25 @@ impl Net {
             n.push(json!({"e":"reset","ep":n.name,"auto":cfg.auto.contains(&n.name),"peers":peers,"dial":cfg.dial,
                           "sync":cfg.sync,"async":cfg.asyn,"max":cfg.max,"seed":cfg.seed,"perturb":cfg.perturb,"tr":cfg.transport}));
         }
-        let mut net = Net { cfg, nodes, names, proxy, max_late_ms: 0, t0, notes: Vec::new() };
+        // dead address: a TCP listener that accepts and says nothing / a UDP socket that never answers
+        let (tarpit_port, _tarpit) = if cfg.transport == "quic" {
+            let u = tokio::net::UdpSocket::bind("127.0.0.1:0").await.expect("tarpit");
+            let port = u.local_addr().unwrap().port();
+            (port, tokio::spawn(async move {
+                let mut b = vec![0u8; 2048];
+                while u.recv_from(&mut b).await.is_ok() {}
+            }))
+        } else {
+            let l = tokio::net::TcpListener::bind("127.0.0.1:0").await.expect("tarpit");
+            let port = l.local_addr().unwrap().port();
+            (port, tokio::spawn(async move {
+                let mut held = Vec::new();
+                while let Ok((sock, _)) = l.accept().await {
+                    held.push(sock);
+                }
+            }))
+        };
+        let mut net = Net { cfg, nodes, names, proxy, rproxy, max_late_ms: 0, t0, notes: Vec::new(), tarpit_port, _tarpit };
         // X knows Y only through the proxy
         let ya = net.y_addr();
         let yp = net.nodes[1].peer;
@@ -407,7 +434,10 @@ impl Net {
                         node.push(json!({"e":"conn","k":"down","p":name}));
                     }
                 }
-                NodeEv::DialFailure => {}
+                NodeEv::DialFailure => {
+                    node.dialfails += 1;
+                    node.push(json!({"e":"note","k":"dialfail"}));
+                }
             }
         }
         // panics of tasks of this node
@@ -417,9 +447,21 @@ impl Net {
             self.nodes[i].panics_logged += 1;
             let short: String = msg.chars().take(160).collect();
             self.nodes[i].push(json!({"e":"panic","cls":cls,"msg":short}));
+            let me = self.nodes[i].name.clone();
+            self.tell_peers(i, &me, "rfault");
             n += 1;
         }
         n
+    }
+
+    /// Environment knowledge for the other endpoints: the user / node `me` did something that ends its streams
+    /// (close command, oversize or clogging send, panic).  Logged in the peers' logs at the moment the harness does it.
+    fn tell_peers(&mut self, i: usize, me: &str, k: &str) {
+        for j in 0..self.nodes.len() {
+            if j != i && self.nodes[j].views.contains_key(me) {
+                self.nodes[j].push(json!({"e":"conn","k":k,"p":me}));
+            }
+        }
     }
 
     /// pull at most `limit` events from the handle of node i; apply the validation policy
@@ -433,6 +475,7 @@ impl Net {
             n += 1;
             let max = self.cfg.max;
             let mut todo: Option<(String, bool)> = None;
+            let mut rfault_to: Option<String> = None;
             let node = &mut self.nodes[i];
             match ev {
                 NotificationEvent::ValidateSubstream { peer, .. } => {
@@ -477,6 +520,8 @@ impl Net {
                         v.want = false;
                     }
                     node.push(json!({"e":"ev","k":"openfail","p":name,"err":format!("{error:?}")}));
+                    // the peer may already have reported this stream opened: it will see it closed
+                    rfault_to = Some(name.clone());
                 }
                 NotificationEvent::NotificationReceived { peer, notification } => {
                     let name = self.names.get(&peer).cloned().unwrap_or("?".into());
@@ -498,6 +543,13 @@ impl Net {
             }
             if let Some((name, acc)) = todo {
                 self.validate(i, &name, acc);
+            }
+            if let Some(to) = rfault_to {
+                if to != "?" && idx_of(&to) < self.nodes.len() {
+                    let me = self.nodes[i].name.clone();
+                    let j = idx_of(&to);
+                    self.nodes[j].push(json!({"e":"conn","k":"rfault","p":me}));
+                }
             }
         }
         n
@@ -521,14 +573,14 @@ impl Net {
         node.push(json!({"e":"val","p":p,"v": if accept {"accept"} else {"reject"},"r": if pending {"sent"} else {"noop"}}));
     }
 
-    /// one driver round: node events first, then handle events, then a short sleep
+    /// one driver round: per endpoint handle events, then node events; then a short sleep
     pub async fn round(&mut self) -> usize {
+        // per endpoint: the handle's events first, then what the node's own event loop reported (a stream event
+        // that was emitted before a connection event must not be logged after it when an endpoint was not polled)
         let mut n = 0;
         for i in 0..self.nodes.len() {
-            n += self.pull_node_events(i);
-        }
-        for i in 0..self.nodes.len() {
             n += self.pull_handle(i, 64);
+            n += self.pull_node_events(i);
         }
         let st = Instant::now();
         tokio::time::sleep(Duration::from_millis(2)).await;
@@ -550,8 +602,8 @@ impl Net {
     pub async fn pump_one(&mut self, i: usize, ms: u64) {
         let end = Instant::now() + Duration::from_millis(ms);
         loop {
-            self.pull_node_events(i);
             self.pull_handle(i, 64);
+            self.pull_node_events(i);
             tokio::time::sleep(Duration::from_millis(2)).await;
             if Instant::now() >= end {
                 break;
@@ -644,6 +696,11 @@ impl Net {
                 let had = node.handle.notification_sink(pid).is_some();
                 node.handle.close_substream(pid).await;
                 node.push(json!({"e":"close","p":to,"r": if had {"sent"} else {"noop"}}));
+                if had {
+                    let me = self.nodes[i].name.clone();
+                    let j = idx_of(&to);
+                    self.nodes[j].push(json!({"e":"conn","k":"rclose","p":me}));
+                }
             }
             "val" => {
                 let i = ep.unwrap();
@@ -687,8 +744,8 @@ impl Net {
             "pull" => {
                 // drain what is available at one endpoint now
                 let i = ep.unwrap();
-                self.pull_node_events(i);
                 self.pull_handle(i, s["n"].as_u64().unwrap_or(64) as usize);
+                self.pull_node_events(i);
             }
             "pump" => {
                 let ms = s["ms"].as_u64().unwrap_or(50);
@@ -723,6 +780,7 @@ impl Net {
                         "answered" => !v.ownopen && !v.acc,
                         "up" => !v.conns.is_empty(),
                         "down" => v.conns.is_empty(),
+                        "dialfail" => self.nodes[i].dialfails > self.nodes[i].dialfails_mark,
                         _ => true,
                     };
                     if done || Instant::now() > end {
@@ -732,7 +790,7 @@ impl Net {
                 }
             }
             "cut" => {
-                let n = self.proxy.cut();
+                let n = self.proxy.cut() + self.rproxy.cut();
                 if s["block"].as_bool().unwrap_or(false) {
                     self.proxy.block(true);
                 }
@@ -756,6 +814,40 @@ impl Net {
             "dial" => {
                 let ya = self.y_addr();
                 let _ = self.nodes[0].cmd_tx.send(NodeCmd::Dial(ya));
+            }
+            "dialdead" => {
+                // the application of node `ep` dials a dead address of peer `to` (a tar pit: accepts / stays silent):
+                // the dial fails after the connection open timeout and the failure is broadcast to every protocol
+                let i = ep.unwrap();
+                let to = s["to"].as_str().unwrap();
+                if idx_of(to) >= self.nodes.len() {
+                    return;
+                }
+                let a = self.maddr(self.tarpit_port, self.nodes[idx_of(to)].peer);
+                self.nodes[i].dialfails_mark = self.nodes[i].dialfails;
+                if s["known"].as_bool().unwrap_or(false) {
+                    // ... or only tells the node about the address: a dial started by a protocol will use it
+                    let _ = self.nodes[i].cmd_tx.send(NodeCmd::AddAddr(self.nodes[idx_of(to)].peer, a));
+                } else {
+                    let _ = self.nodes[i].cmd_tx.send(NodeCmd::Dial(a));
+                }
+                self.nodes[i].push(json!({"e":"note","k":"dialdead","p":to}));
+            }
+            "dialdirect" => {
+                // node `ep` dials the listen address of `to` (not through the proxy)
+                let i = ep.unwrap();
+                let to = idx_of(s["to"].as_str().unwrap());
+                if to >= self.nodes.len() {
+                    return;
+                }
+                // (X <-> Y always through one of the two links so that `cut` reaches every connection of the pair)
+                let port = match (i, to) {
+                    (0, 1) => self.proxy.addr().port(),
+                    (1, 0) => self.rproxy.addr().port(),
+                    _ => self.nodes[to].listen.port(),
+                };
+                let a = self.maddr(port, self.nodes[to].peer);
+                let _ = self.nodes[i].cmd_tx.send(NodeCmd::Dial(a));
             }
             "stall" => {
                 // hold a class of tasks of one node: an adversarial scheduler; voids deadlines
@@ -829,11 +921,23 @@ impl Net {
                 }
             }
             node.push(json!({"e":"send","p":to,"m":"s","per": if open {period} else {0},"n":seq,"len":len,"sz":szc,"r":res,"w":took}));
+            if res == "clogged" || (res == "ok" && len > max) {
+                let me = self.nodes[i].name.clone();
+                let j = idx_of(to);
+                self.nodes[j].push(json!({"e":"conn","k":"rfault","p":me}));
+            }
         } else {
             match sink {
                 None => node.push(json!({"e":"send","p":to,"m":"a","per":0,"n":0,"len":len,"sz":szc,"r":"nostream","w":0})),
                 Some(sink) => {
                     node.async_inflight.fetch_add(1, Ordering::SeqCst);
+                    if len > max {
+                        let me = node.name.clone();
+                        let j = idx_of(to);
+                        let _ = node.async_tx.send(AsyncJob { sink, peer: to.to_string(), period, seq, len, szc: szc.to_string(), payload });
+                        self.nodes[j].push(json!({"e":"conn","k":"rfault","p":me}));
+                        return;
+                    }
                     let _ = node.async_tx.send(AsyncJob { sink, peer: to.to_string(), period, seq, len, szc: szc.to_string(), payload });
                 }
             }
